@@ -17,6 +17,6 @@ cd /repo && [ -z "$(git status --porcelain --untracked-files=no)" ] || { echo "r
 git apply "$wt/patch.diff" || { echo "patch does not apply to /repo"; exit 2; }
 unset CARGO_TARGET_DIR
 for c in "$@"; do
-  (cd /verif && ./vcheck "$c" quick 2>&1 | grep -E "^VIOLATION|^KNOWN|class:|tier:|MACHINERY" | cut -c1-230 | head -8; echo "[$c exit=${PIPESTATUS[0]}]")
+  (cd /verif && ./vcheck "$c" quick 2>&1 | grep -aE "^VIOLATION|^KNOWN|class:|tier:|MACHINERY" | cut -c1-230 | head -8; echo "[$c exit=${PIPESTATUS[0]}]")
 done
 cd /repo && git checkout -q -- . && git status --short | head -2
